@@ -6,7 +6,7 @@ in particular `ofBody b` for an arbitrary `b : Body`, which already covers "howe
 awaits other non-suspending coroutines" (a `Body` is any resumable computation, call stack
 included), and `nativeStack n I` for explicit nesting (`awaitSync_complete_nested`).
 -/
-import Asynkit.Lemmas.C02
+import Asynkit.Lemmas.C02Proto
 
 namespace Asynkit.C05
 open Asynkit.Proto
@@ -203,5 +203,32 @@ def exComplete : Body where
   resume _ _ := (1, .ret 5)
 
 example : (awaitSync (nativeStack 2 (ofBody exComplete))).out = .ret 5 := by decide
+
+end Asynkit.C05
+
+/-! ### against the shared reference `Proto.nativeAwait b` -/
+namespace Asynkit.C05
+open Asynkit.Proto
+
+/-- for every coroutine body that completes without yielding, `await_sync` gives exactly what the
+    first `send(None)` to `Proto.nativeAwait b` (under `Proto.Coro`) gives -/
+theorem awaitSync_complete_nativeAwait (b : Body)
+    (h : ∀ y, (b.resume b.init (.send 0)).2 ≠ .yield y) :
+    (awaitSync (ofBody b)).out = (Coro.send (nativeAwait b) (Coro.start (nativeAwait b)) 0).2 := by
+  have hI : ∀ y, ((ofBody b).send (ofBody b).init 0).2 ≠ .yield y := by
+    intro y
+    rcases hh : b.resume b.init (.send 0) with ⟨s', o⟩
+    have := h y
+    rw [hh] at this
+    rcases o with y' | v | e
+    · simp [ofBody, coroObj, envObj, envAfter, hh]
+      intro hy; subst hy; exact this rfl
+    · simp [ofBody, coroObj, envObj, envAfter, hh]
+    · cases e <;> simp [ofBody, coroObj, envObj, envAfter, hh]
+  have h1 := (awaitSync_complete (ofBody b) hI).1
+  have h2 := proto_nativeAwait_outs b [.send 0]
+  rw [protoOuts, outs_single, outs_single] at h2
+  rw [h1]
+  exact ((List.cons.inj h2).1).symm
 
 end Asynkit.C05
